@@ -284,6 +284,37 @@ theorem subsAnswer_of_elementsOnly {s : Sequence} (h : ∀ x ∈ s.data, ∃ e, 
   obtain ⟨e, he⟩ := h x hx
   rw [he] at hs; cases hs
 
+/-! ### positions -/
+
+theorem mem_oneTo (n : ℕ) (k : ℤ) : k ∈ oneTo n ↔ 1 ≤ k ∧ k ≤ n := by
+  unfold oneTo
+  simp only [List.mem_map, List.mem_range]
+  constructor
+  · rintro ⟨i, hi, rfl⟩
+    omega
+  · rintro ⟨h1, h2⟩
+    exact ⟨(k - 1).toNat, by omega, by omega⟩
+
+theorem oneTo_nodup (n : ℕ) : (oneTo n).Nodup := by
+  unfold oneTo
+  apply List.Nodup.map
+  · intro a b h
+    simp only at h
+    omega
+  · exact List.nodup_range
+
+/-- with no position stored twice, "the positions are a permutation of 1..N" says: position `k` is
+    filled exactly for `1 ≤ k ≤ N`, `N` the number of stored entries -/
+theorem filled_iff_positions {s : Sequence} (hwf : Dict.WF s.data) :
+    Filled s ↔ ∀ k : ℤ, (Dict.get? s.data k).isSome = true ↔ (1 ≤ k ∧ k ≤ s.data.length) := by
+  unfold Filled
+  rw [List.perm_ext_iff_of_nodup hwf (oneTo_nodup _)]
+  constructor
+  · intro h k
+    rw [Dict.get?_isSome_iff, h k, mem_oneTo]
+  · intro h k
+    rw [← Dict.get?_isSome_iff, h k, mem_oneTo]
+
 /-! ### order of insertion -/
 
 theorem sameSR_perm {a b : Sequence} (hp : a.data.Perm b.data) : SameSR a ↔ SameSR b := by
